@@ -46,6 +46,7 @@ TRANSPARENT = {
     'std::task::Poll::map_err': 'map_err', 'std::result::Result::map_err': 'map_err',
     'std::option::Option::take': 'take',
     'std::mem::take': 'take',
+    'delay_queue::Expired::into_inner': 'inner', 'delay_queue::Expired::get_ref': 'inner', 'delay_queue::Expired::get_mut': 'inner',
 }
 
 
@@ -589,7 +590,7 @@ class Prov:
                 # structure-preserving wrappers over an aggregate: look through
                 self._root(t, path[1:], depth - 1, out) if len(path) > 1 else out.append((t, ()))
                 return
-        if k == 'param' and self.through_params and depth > 0:
+        if k == 'param' and self.through_params and depth > 0 and (self.through_params is True or self.F.fns[t[1]].kind == 'Closure'):
             srcs = self.param_sources(t)
             if srcs:
                 for (src, steps) in srcs:
